@@ -28,6 +28,10 @@ pub struct Case {
     /// debugger may be paused on a HALT that is not in the loaded image
     #[serde(default)]
     pub plant: Option<RawCmd>,
+    /// the history also exchanges the contents of two words of the image (selectors): a change
+    /// that leaves every sum, xor or count of the memory as it was
+    #[serde(default)]
+    pub exchange: Option<(u16, u16)>,
     /// a "quiet" history: only stores that land outside the program (through R7, the one register
     /// that is not zero at load, or through registers that are put back afterwards) and moves of the
     /// PC that are undone - when `reset` is issued every register, the PC and the condition code
@@ -131,6 +135,20 @@ pub fn judge_case(c: &Case) -> Obs {
         more.retain(|c| !matches!(c, Cmd::BreakAdd(_) | Cmd::BreakRemove(_)));
         if more.is_empty() {
             more.push(Cmd::Continue);
+        }
+    }
+    if let (Some((a, b)), false) = (c.exchange, c.quiet) {
+        let n = p.img.words.len();
+        if n >= 2 {
+            let i = (a as usize * n) >> 16;
+            // the partner lies within the same 256-word page when the image allows it
+            let j = (i + 1 + (b as usize % 200.min(n - 1))) % n;
+            let (wi, wj) = (p.img.words[i], p.img.words[j]);
+            if wi != wj {
+                cmds.push(Cmd::Move(PLoc::Mem(Loc::Abs(p.orig.wrapping_add(i as u16), 0)), wj));
+                cmds.push(Cmd::Move(PLoc::Mem(Loc::Abs(p.orig.wrapping_add(j as u16), 0)), wi));
+                obs.label("history-exchanges-two-words");
+            }
         }
     }
     if let (Some(r), false) = (&c.plant, c.quiet) {
@@ -273,12 +291,12 @@ pub fn judge_case(c: &Case) -> Obs {
 }
 
 fn cases() -> impl Strategy<Value = Case> {
-    (proggen::prog_spec(20), prop::collection::vec(raw_cmd(), 1..12), prop::collection::vec(raw_cmd(), 0..6), 0u8..6, prop::bool::weighted(0.15), crate::pick::opt(0.25, raw_cmd()))
-        .prop_map(|(spec, mut cmds, more, variant, quiet, plant)| {
+    (proggen::prog_spec(20), prop::collection::vec(raw_cmd(), 1..12), prop::collection::vec(raw_cmd(), 0..6), 0u8..6, prop::bool::weighted(0.15), crate::pick::opt(0.25, raw_cmd()), crate::pick::opt(0.2, (any::<u16>(), any::<u16>())))
+        .prop_map(|(spec, mut cmds, more, variant, quiet, plant, exchange)| {
             if quiet {
                 cmds.truncate(4);
             }
-            Case { spec, cmds, more, variant, quiet, plant }
+            Case { spec, cmds, more, variant, quiet, plant, exchange }
         })
 }
 
@@ -287,7 +305,7 @@ impl Prop for C12 {
         "C12"
     }
     fn rule(&self) -> &'static str {
-        "ProgGen programs (incl. self-modifying stores, stores below the origin, into the stack area and to 0xFFFF through pointers) x histories of 1-11 commands over {move to any register / any memory location, goto, eval of arbitrary instructions incl. stores and jumps, step, step into k, continue, break add/remove, reset, and (a quarter) the inspection commands print / registers / assembly / break list / help / echo}, half of them in the normal (non-minimal) output mode; 15% are 'quiet' histories - stores through R7 or through registers that are put back, PC moves that are undone - after which every register, the PC and the condition code already equal their load-time values and only memory outside the program differs; followed by: reset | reset; reset | reset; <history>; reset | reset; quit | reset; <history> | reset; goto <where the PC was before the reset>; <history> (the last two without breakpoint commands; a quarter of all histories end with `move <code location> xF025; continue`, so that the reset may be issued while paused on a HALT that the loaded image does not have). \
+        "ProgGen programs (incl. self-modifying stores, stores below the origin, into the stack area and to 0xFFFF through pointers) x histories of 1-11 commands over {move to any register / any memory location, goto, eval of arbitrary instructions incl. stores and jumps, step, step into k, continue, break add/remove, reset, and (a quarter) the inspection commands print / registers / assembly / break list / help / echo}, half of them in the normal (non-minimal) output mode; 15% are 'quiet' histories - stores through R7 or through registers that are put back, PC moves that are undone - after which every register, the PC and the condition code already equal their load-time values and only memory outside the program differs; followed by: reset | reset; reset | reset; <history>; reset | reset; quit | reset; <history> | reset; goto <where the PC was before the reset>; <history> (the last two without breakpoint commands; a fifth of the histories also exchange the contents of two words of the image (a change that leaves every sum, xor or count of the memory as it was); a quarter of all histories end with `move <code location> xF025; continue`, so that the reset may be issued while paused on a HALT that the loaded image does not have). \
          Oracle: after the final reset the full snapshot (8 registers, PC, CC, 65,536 words) equals the snapshot taken right after loading; for `reset; quit` the exit status and final state equal a fresh plain run and the output equals (output of the history) ++ (output of a fresh run); for `reset; [goto X;] <history>` the output, the return to the prompt and the final state equal those of the same commands in a fresh session. \
          Non-trivial (measured on a twin session that ends before the reset): the history changed >= 1 memory word outside the stack page, >= 1 register and the PC. Distinct = hash(source, script)."
     }
